@@ -32,8 +32,9 @@ EXPLANATION = ('translation validation: the Coq function check_frame (computes a
                'is validated by a second verified validator check_spill (fact certificate per program point; '
                'c06_check_spill_sound: the rewritten program simulates the program before the round for every '
                'semantics/state: non-spilled registers equal, slot or pending temporary holds each live spilled value, '
-               'same reads; c06_slots_disjoint_sound); quick tier: a size-bounded selection of rounds covering every '
-               'target, thorough: all rounds. The real load/store instructions are abstracted to XLoad/XStore of the '
+               'same reads; physical scratch registers overwritten by spill code (AVR: Z) are tracked as dirty and must '
+               'not be read before both programs rewrite them; c06_slots_disjoint_sound); quick tier: a size-bounded '
+               'selection of rounds covering every target, thorough: up to 9 MB of rounds (normally all). The real load/store instructions are abstracted to XLoad/XStore of the '
                'slot (tagging by the harness from what insert_code_before/after received); their address operands and '
                'in-order address computation are checked structurally in Python (check_spill_py) and by the entry-live '
                'check (c06_entry_live_sound). Hand models (tie H) of FlowGraph.calculate_liveness '
@@ -1128,9 +1129,43 @@ def encode_spill_round(rec, r):
         if not ins:
             k += 1
     special = sorted(set(rid(t) for t in slot_of) | set(rid(x) for x in fresh))
-    physl = sorted(rid(kx) for kx in rec['regs'] if kx[0] == 'P')
-    term = 'check_spill %s %s [%s] [%s] [%s] [%s]' % (
-        zl(physl), zl(special), ';\n'.join(xp), ';'.join(marks), ';\n'.join(ptxt), ';'.join(facts))
+    pkeys = [kx for kx in rec['regs'] if kx[0] == 'P']
+    physl = sorted(rid(kx) for kx in pkeys)
+    alias = rec['alias']
+
+    def aliased(d, q):      # d, q: 'P' keys
+        return (q[1], q[2]) in alias.get((d[1], d[2]), ()) and q != d
+    # ---- dirty certificate: physical registers overwritten by inserted (untagged) spill code, and their
+    # aliases, until an original instruction rewrites them (forward dataflow over the rewritten program)
+    nb = len(b)
+    gen, kill = [set() for _ in b], [set() for _ in b]
+    for p, i in enumerate(b):
+        if i['id'] in ida:
+            kill[p] = set(i['defs']) | set(i['clob'])
+        elif not (info.get(i['id'], {}).get('tag')):
+            ds = [d for d in i['defs'] if d[0] == 'P']
+            for q in pkeys:
+                if q in ds or any(aliased(d, q) for d in ds):
+                    gen[p].add(q)
+    din = [set() for _ in range(nb + 1)]
+    ch = True
+    while ch:
+        ch = False
+        for p in range(nb):
+            out = (din[p] | gen[p]) - kill[p]
+            for s2 in (sc_b[p] if b[p]['jumps'] else [p + 1]):
+                if s2 <= nb and not out <= din[s2]:
+                    din[s2] |= out
+                    ch = True
+    dirty = [zl(sorted(rid(q) for q in din[p])) for p in range(nb + 1)]
+    atbl = []
+    for d in pkeys:
+        qs = sorted(rid(q) for q in pkeys if aliased(d, q))
+        if qs:
+            atbl.append('(%d,%s)' % (rid(d), zl(qs)))
+    term = 'check_spill %s %s (alias_of [%s]) [%s] [%s] [%s] [%s] [%s]' % (
+        zl(physl), zl(special), ';'.join(atbl), ';\n'.join(xp), ';'.join(marks), ';\n'.join(ptxt),
+        ';'.join(facts), ';'.join(dirty))
     slots = [(n, sp['slots'][0][0], sp['slots'][0][1]) for n, sp in enumerate(rec['spills']) if len(sp['slots']) == 1]
     return (term, {'round': r, 'inserted': marks.count('true'), 'spilled': len(slot_of), 'slots': slots})
 
@@ -1404,6 +1439,8 @@ def validate_helper_models(ctx, frames):
                                                           len(icases[k][0])))[:20]
         icases, iown = [icases[k] for k in order], [iown[k] for k in order]
         lcases, lown = lcases[:30], lown[:30]
+    else:
+        lcases, lown, icases, iown = lcases[:300], lown[:300], icases[:200], iown[:200]
     imports = ['Spec.RegAllocSpec', 'Model.RegAllocCheck', 'Model.RegAllocHelpers']
     for name, cases, own, fn in (('livemodel', lcases, lown, 'FlowGraph.calculate_liveness'),
                                  ('interfmodel', icases, iown, 'InterferenceGraph.calculate_interference')):
@@ -1433,10 +1470,10 @@ def validate_spill_rounds(ctx, spilled):
             slot_owner.append(f)
     imports = ['Spec.RegAllocSpec', 'Spec.SpillSpec', 'Model.RegAllocCheck', 'Model.SpillCheck']
     ctx.cov['stages']['spill_rounds_total'] = len(cases)
-    if ctx.quick():
-        # coqc spends its time parsing the literals: in the quick tier validate a size-bounded selection
-        # (every target first, then the smallest rounds); the thorough tier validates every round
-        budget = 450000
+    if True:
+        # coqc spends its time parsing the literals: validate a size-bounded selection (every target first,
+        # then the smallest rounds); the thorough tier's bound is large (normally every round fits)
+        budget = 450000 if ctx.quick() else 9000000
         order = sorted(range(len(cases)), key=lambda k: len(cases[k][0]))
         seen_t, pick = set(), []
         for k in order:
@@ -1481,7 +1518,7 @@ def run(ctx):
     cap.install()
     t0 = time.time()
     try:
-        budget = 90 if ctx.quick() else 1500
+        budget = 90 if ctx.quick() else 1000
         targets = QUICK_TARGETS if ctx.quick() else THOROUGH_TARGETS
         collect_frames(ctx, cap, budget, targets)
     finally:
